@@ -101,7 +101,8 @@ theorem statusWord_spec {clk : Nat} {k : Kernel} {B : Nat} {o : PObj} (hk : KInv
     cases hf : k.find o.pid with
     | none => simp [Kernel.owner, hf]
     | some x =>
-      simp only [Kernel.owner, hf, Option.map_some, Option.some.injEq]
+      simp only [Kernel.owner, hf, Option.map_some, Option.some.injEq, isHidden_false hok.nohide,
+        Bool.false_eq_true, if_false]
       refine ⟨?_, fun hl => ⟨x, rfl, hl, rfl⟩⟩
       rintro (h | h) <;> split at h <;> cases h
 
